@@ -204,7 +204,8 @@ PlaceFlat PlaceStanding PlaceCapstone SlideLeft SlideRight SlideUp SlideDown
 mkPiece mkMove mkPos mkSC mkDelta pcolor pkind size ply board wstones wcaps bstones bcaps mx my mt mslides
 color_eqb kind_eqb mtype_eqb reason_eqb zlen zsum upd sq getz updz has_road config mkCfg csize cpieces ccaps fuel fuel'
 mk_position py_tuple2_update py_try py_unpack2 py_unpack3 py_list_repeat py_str_int py_int_str py_isdigit py_isascii
-py_join py_split1 pystr ch pystr_eqb rev concat repeat py_uncons pair_eqb list_eqb
+py_join py_split1 pystr ch pystr_eqb rev concat repeat py_uncons pair_eqb list_eqb py_opt_append
+py_int_sqrt_float py_tuple2_of_list
 Ok Illegal Crash ret bind embed res_map len py_index py_getitem py_setitem py_bound py_slice truthy_list py_range
 py_range2 py_sum py_iter_opt py_tuple2_get py_tuple2_list py_dict_get pos_stones sc_stones sc_caps py_getattr_sc
 sc_evolve delta_empty set_d_ply set_d_stones set_d_board d_ply d_stones d_board evolve_position
@@ -482,6 +483,7 @@ class Translator:
         self.scope = ""          # "Token." while the body of class Token is translated
         self.str_codepoints = False   # tps.py: str = list of code points; game.py: the two slot names are Coq strings
         self.illegal = "IllegalMove"  # the module's own refusal exception -> `Illegal`
+        self.tensor_mode = False      # encoding.decode: a torch tensor of ints is the list of its entries
         self.while_fuel = {}
         self.coq_names = set()
 
@@ -795,6 +797,23 @@ class Translator:
         fail(node, f"truth value of a {v.ty}")
 
     def subscript(self, fn, e, env):
+        if isinstance(e.value, ast.Dict):      # {k: v, ...}[x]
+            items, kty, vty, pre = [], None, None, []
+            for k, v in zip(e.value.keys, e.value.values):
+                if k is None:
+                    fail(e, "dict unpacking")
+                kv, vv = self.pure(fn, k, env), self.pure(fn, v, env)
+                if vv.pre:
+                    fail(e, "dict literal whose values can raise")
+                pre += kv.pre
+                kty, vty = unify(kty, kv.ty, k), unify(vty, vv.ty, v)
+                items.append(f"({kv.term}, {vv.term})")
+            i = self.pure(fn, e.slice, env)
+            unify(i.ty, kty, e)
+            # a repeated key keeps the LAST value in Python; py_dict_get returns the first: refuse repeated key terms
+            if len({x.split(",")[0] for x in items}) != len(items):
+                fail(e, "dict literal with a repeated key")
+            return V(pre + i.pre, app("py_dict_get", eqb_term(kty), "[" + "; ".join(items) + "]", i.term), vty, True)
         b = self.pure(fn, e.value, env)
         if b.ty == POS:
             return self.call_function(fn, "Position.__getitem__", [b], [e.slice], env, e)
@@ -1013,6 +1032,18 @@ class Translator:
                 return V(a.pre, a.term, a.ty, False, True)
             if name in ("any", "all") and len(e.args) == 1:
                 return self.any_all(fn, e, env, name)
+            if name == "int" and len(e.args) == 1 and not e.keywords and isinstance(e.args[0], ast.BinOp) \
+                    and isinstance(e.args[0].op, ast.Pow) and _src(e.args[0].right) in ("1 / 2", "0.5"):
+                a = self.pure(fn, e.args[0].left, env)      # int(n ** (1 / 2)): the float square root, truncated
+                if a.ty != INT:
+                    fail(e, "square root of a non-int")
+                return V(a.pre, app("py_int_sqrt_float", a.term), INT, True)
+            if name == "tuple" and len(e.args) == 1 and not e.keywords and isinstance(want, tuple) \
+                    and want[0] == "tuple" and len(want) == 3 and want[1] == want[2]:
+                a = self.pure(fn, e.args[0], env)
+                if a.ty != L(want[1]):
+                    fail(e, f"tuple() of a {a.ty}")
+                return V(a.pre, app("py_tuple2_of_list", a.term), want, True)
             if name == "int" and len(e.args) == 1 and not e.keywords:
                 a = self.pure(fn, e.args[0], env)
                 if a.ty == L(CHAR):
@@ -1095,6 +1126,11 @@ class Translator:
             sm = self.str_method(fn, e, env)
             if sm is not None:
                 return sm
+            if self.tensor_mode and f.attr in ("item", "numpy") and not e.args and not e.keywords:
+                # a 1-d integer tensor is the list of its entries: t[i].item() is the entry, t[i:].numpy() the slice
+                recv = self.pure(fn, f.value, env)
+                if (f.attr == "item" and recv.ty == INT) or (f.attr == "numpy" and recv.ty == L(INT)):
+                    return recv
         if isinstance(f, ast.Attribute):
             recv = self.pure(fn, f.value, env)
             if recv.ty == POS and f.attr == "has_road" and not e.args and not e.keywords:
@@ -1236,6 +1272,17 @@ class Translator:
         return V(it.pre, app("existsb" if name == "any" else "forallb", pred, it.term), BOOL)
 
     def evolve(self, fn, e, env):
+        if len(e.args) == 1 and e.keywords and all(k.arg in DELTA_KEYS for k in e.keywords):
+            o = self.pure(fn, e.args[0], env)          # attrs.evolve(position, stones=.., ...)
+            if o.ty != POS or len({k.arg for k in e.keywords}) != len(e.keywords):
+                fail(e, "attrs.evolve with keywords: a Position expected")
+            pre, term = list(o.pre), "delta_empty"
+            for k in e.keywords:
+                v = self.pure(fn, k.value, env, DELTA_KEYS[k.arg][1])
+                unify(v.ty, DELTA_KEYS[k.arg][1], e)
+                pre += v.pre
+                term = app(DELTA_KEYS[k.arg][0], term, v.term)
+            return V(pre, app("evolve_position", o.term, term), POS)
         if len(e.args) != 1 or len(e.keywords) != 1 or e.keywords[0].arg is not None:
             fail(e, "attrs.evolve: expected evolve(obj, **mapping)")
         o = self.pure(fn, e.args[0], env)
@@ -1325,7 +1372,7 @@ class Translator:
                 elif isinstance(s, ast.Expr) and isinstance(s.value, ast.Call):
                     c = s.value
                     if isinstance(c.func, ast.Attribute) and isinstance(c.func.value, ast.Name):
-                        if c.func.attr == "append":
+                        if c.func.attr in ("append", "reverse"):
                             add(c.func.value.id)
                         else:   # self.f(.., delta): the callee updates the dict it is given
                             for a in c.args:
@@ -1383,7 +1430,13 @@ class Translator:
             fail(s, "exception class")
         if isinstance(s, ast.Assert):
             c = self.pure(fn, s.test, env)
-            if s.msg is not None and not isinstance(s.msg, ast.Constant):
+            if isinstance(s.msg, ast.JoinedStr):      # evaluated only when the assertion fails; must not raise itself
+                for part in s.msg.values:
+                    if isinstance(part, ast.FormattedValue):
+                        m = self.expr(fn, part.value, env)
+                        if m.comp or m.pre or part.format_spec is not None:
+                            fail(s, "assert message that can raise")
+            elif s.msg is not None and not isinstance(s.msg, ast.Constant):
                 fail(s, "assert message")
             return wrap(c.pre, ("if", app("negb", self.truth(c, s.test)), ("raise", "Crash AssertionError"), cont(env)))
         if isinstance(s, ast.Continue):
@@ -1485,6 +1538,30 @@ class Translator:
             v = self.expr(fn, value, env)
             c = self.cname(target.id)
             ty = v.ty
+            if ty == NONE and not env.has(target.id):
+                # x = None: Optional[T], T from the first x.append(e) that can be typed here
+                hint = None
+                for n in ast.walk(fn.body) if fn.body is not None else []:
+                    if isinstance(n, ast.Call) and isinstance(n.func, ast.Attribute) and n.func.attr == "append" \
+                            and isinstance(n.func.value, ast.Name) and n.func.value.id == target.id and len(n.args) == 1:
+                        scratch = Fn(self, fn.module, fn.qual, fn.coq)
+                        scratch.ntemp = 10 ** 6
+                        try:
+                            t = self.force(scratch, self.expr(scratch, n.args[0], env)).ty
+                        except Untranslatable:
+                            continue
+                        if known(t):
+                            hint = O(L(t))
+                            break
+                if hint is None:
+                    fail(node, "a variable holding None whose other values cannot be typed")
+                return ("let", c, "None", cont(env.set(target.id, c, hint, True)))
+            if env.has(target.id) and isinstance(env.get(target.id)[1], tuple) and env.get(target.id)[1][0] == "opt" \
+                    and not v.comp and not (isinstance(ty, tuple) and ty[0] == "opt"):
+                oty = env.get(target.id)[1]
+                if ty == NONE:
+                    return wrap(v.pre, ("let", c, "None", cont(env.set(target.id, c, oty, True))))
+                return wrap(v.pre, ("let", c, app("Some", v.term), cont(env.set(target.id, c, O(unify(oty[1], ty, node)), v.fresh))))
             if ty == NONE:
                 fail(node, "a variable holding None")
             if env.has(target.id):      # a variable keeps its type
@@ -1593,6 +1670,23 @@ class Translator:
 
     def call_stmt(self, fn, c, env, cont):
         f = c.func
+        if isinstance(f, ast.Attribute) and f.attr == "append" and isinstance(f.value, ast.Name) and env.has(f.value.id) \
+                and isinstance(env.get(f.value.id)[1], tuple) and env.get(f.value.id)[1][0] == "opt":
+            # x.append(v) where x may be None: AttributeError
+            name = f.value.id
+            coq, ty, fresh = env.get(name)
+            if not (isinstance(ty[1], tuple) and ty[1][0] == "list") or len(c.args) != 1 or c.keywords or not fresh:
+                fail(c, "append to an optional list that is shared or not a list")
+            v = self.pure(fn, c.args[0], env, ty[1][1] if known(ty[1][1]) else None)
+            nty = O(L(unify(ty[1][1], v.ty, c)))
+            return wrap(v.pre, ("bind", coq, app("py_opt_append", coq, v.term), cont(env.set(name, coq, nty, True))))
+        if isinstance(f, ast.Attribute) and f.attr == "reverse" and isinstance(f.value, ast.Name) and env.has(f.value.id) \
+                and not c.args and not c.keywords:
+            name = f.value.id
+            coq, ty, fresh = env.get(name)
+            if not (isinstance(ty, tuple) and ty[0] == "list") or not fresh:
+                fail(c, "reverse() of something that is not a list created here")
+            return ("let", coq, app("rev", coq), cont(env))
         if isinstance(f, ast.Attribute) and f.attr == "append" and isinstance(f.value, ast.Name) and env.has(f.value.id):
             name = f.value.id
             coq, ty, fresh = env.get(name)
@@ -1602,7 +1696,12 @@ class Translator:
                 fail(c, f"append to {name}, a list this function did not create")
             v = self.pure(fn, c.args[0], env, ty[1] if known(ty[1]) else None)
             nty = L(unify(ty[1], v.ty, c))
-            return wrap(v.pre, ("let", coq, f"{coq} ++ [{v.term}]", cont(env.set(name, coq, nty, True))))
+            env2 = env.set(name, coq, nty, True)
+            a = c.args[0]
+            if isinstance(a, ast.Name) and env.has(a.id) and isinstance(v.ty, tuple) and v.ty[0] == "list":
+                # the container now refers to the list a names: a may not be changed in place until it is rebound
+                env2 = env2.set(a.id, env.get(a.id)[0], env.get(a.id)[1], False)
+            return wrap(v.pre, ("let", coq, f"{coq} ++ [{v.term}]", cont(env2)))
         if isinstance(f, ast.Attribute):
             # a method that works through the dict it is given: self._move_slide(m, delta)
             recv = self.pure(fn, f.value, env)
@@ -1630,10 +1729,31 @@ class Translator:
             unify(x.ty[1], fn.ret_ty, s)
             v = fn.temp()
             return wrap(x.pre, ("matchopt", x.term, v, ("ret", v), cont(env)))
-        c = self.pure(fn, s.test, env)
-        cond = self.truth(c, s.test)
+        env_a = env
+        if isinstance(t, ast.Compare) and len(t.ops) == 1 and isinstance(t.ops[0], ast.IsNot) \
+                and isinstance(t.comparators[0], ast.Constant) and t.comparators[0].value is None \
+                and isinstance(t.left, ast.Name) and env.has(t.left.id) \
+                and isinstance(env.get(t.left.id)[1], tuple) and env.get(t.left.id)[1][0] == "opt":
+            # if x is not None: <body that uses x as the value it holds>
+            name = t.left.id
+            if name in self.assigned(s.body):
+                fail(s, f"`if {name} is not None:` whose body rebinds {name}")
+            xc, xty, xfresh = env.get(name)
+            v = fn.temp()
+            env_a = env.set(name, v, xty[1], xfresh)
+            c = V([], None, BOOL)
+
+            def mk(ta, tb):
+                return ("matchopt", xc, v, ta, tb)
+        else:
+            c = self.pure(fn, s.test, env)
+            cond = self.truth(c, s.test)
+
+            def mk(ta, tb):
+                return ("if", cond, ta, tb)
         a_ft, b_ft = self.falls_through(s.body), self.falls_through(s.orelse)
         depth = fn.branch_depth
+        restore = (lambda e: e.set(name, xc, xty, e.get(name)[2])) if env_a is not env else (lambda e: e)
 
         def outside(e):      # the rest of the enclosing block is not "inside the branch"
             saved, fn.branch_depth = fn.branch_depth, depth
@@ -1644,9 +1764,9 @@ class Translator:
         fn.branch_depth = depth + 1
         try:
             if not (a_ft and b_ft):
-                ta = self.block(fn, s.body, env, outside if a_ft else self.unreachable, ctx)
+                ta = self.block(fn, s.body, env_a, (lambda e: outside(restore(e))) if a_ft else self.unreachable, ctx)
                 tb = self.block(fn, s.orelse, env, outside if b_ft else self.unreachable, ctx)
-                return wrap(c.pre, ("if", cond, ta, tb))
+                return wrap(c.pre, mk(ta, tb))
             # both branches reach the rest: the variables they assign are returned as a tuple and rebound
             for x in s.body + s.orelse:
                 for n in ast.walk(x):
@@ -1661,7 +1781,7 @@ class Translator:
             def k(e):
                 ends.append(e)
                 return ("ret", ("JOIN", e))
-            ta = self.block(fn, s.body, env, k, ctx)
+            ta = self.block(fn, s.body, env_a, lambda e: k(restore(e)), ctx)
             tb = self.block(fn, s.orelse, env, k, ctx)
             env2 = env
             for n in names:
@@ -1670,6 +1790,9 @@ class Translator:
                     ty = unify(ty, e.get(n)[1], s)
                     fresh = fresh and e.get(n)[2]
                 env2 = env2.set(n, self.cname(n), ty, fresh)
+            for n in env.names():      # a list that a branch stored into a container is shared from now on
+                if n not in names and env.get(n)[2] and not all(e.get(n)[2] for e in ends):
+                    env2 = env2.set(n, env.get(n)[0], env.get(n)[1], False)
 
             def leaf(t):
                 if t[0] == "ret" and isinstance(t[1], tuple) and t[1][0] == "JOIN":
@@ -1679,8 +1802,7 @@ class Translator:
             def fill(t):
                 return map_tree(t, leaf)
             fn.branch_depth = depth
-            return wrap(c.pre, ("bind", pattern([self.cname(n) for n in names]), ("if", cond, fill(ta), fill(tb)),
-                                cont(env2)))
+            return wrap(c.pre, ("bind", pattern([self.cname(n) for n in names]), mk(fill(ta), fill(tb)), cont(env2)))
         finally:
             fn.branch_depth = depth
 
@@ -1805,6 +1927,8 @@ class Translator:
             ty, fresh = env.get(n)[1], env.get(n)[2]
             for e in ends:
                 ty = unify(ty, e.get(n)[1], s)
+                if fresh and not e.get(n)[2]:
+                    fail(s, f"{n} is shared with a container at the end of an iteration and changed in place in the next")
             env_after = env_after.set(n, env.get(n)[0], ty, fresh)
 
         def fill(t):
@@ -2059,8 +2183,11 @@ class Translator:
             self.do_const(m, name, name, self.module_assign(m, name), f"{m}.py: {name}")
         self.do_class_consts(m, "Token")
         self.do_dict_const(m, "TOP_PIECES", T(BOOL, KIND), INT)
-        self.coq_names.add("encode")
+        self.coq_names |= {"encode", "decode"}
         self.do_function(m, "encode", "encode", [POS, BOOL], L(INT), [])
+        self.tensor_mode = True
+        self.do_function(m, "decode", "decode", [L(INT)], POS, [])
+        self.tensor_mode = False
         digest = hashlib.sha256(self.src[m].encode()).hexdigest()[:16]
         head = (
             "(* GENERATED by harness/py2coq.py from python/tak/model/encoding.py of the tree under test - do not edit.\n"
